@@ -48,7 +48,9 @@ macro_rules! dim {
             && ls(va.rem_element_wise(vd)) == want(&|i| a[i] % d[i]) && ls(va.add_element_wise(vb)) == want(&|i| a[i] + b[i])
             && ls(va.sub_element_wise(vb)) == want(&|i| a[i] - b[i]) && ls(va.add_element_wise(c(k))) == want(&|i| a[i] + k)
             && ls(va.mul_element_wise(c(k))) == want(&|i| a[i] * k) && ls(va.div_element_wise(c(k))) == want(&|i| a[i] / k)
-            && ls(va.rem_element_wise(c(k))) == want(&|i| a[i] % k),
+            && ls(va.rem_element_wise(c(k))) == want(&|i| a[i] % k)
+            // v - s, by value, stated without leaving the unsigned range: (v + s) - s = v
+            && ls(va.add_element_wise(c(k)).sub_element_wise(c(k))) == want(&|i| a[i]),
             || format!("{}<{}> element-wise a={:?} b={:?} d={:?} k={}", stringify!($V), tn, &a[..$n], &b[..$n], &d[..$n], k));
         // the in-place element-wise methods (vector and scalar right-hand side) change the receiver to the by-value result
         ctx.ew.rec({ let mut m = va; m.add_assign_element_wise(vb); ls(m) == want(&|i| a[i] + b[i]) }
@@ -88,6 +90,7 @@ macro_rules! dim {
             && { let mut m = pa; m.div_assign_element_wise(c(k)); lp(m) == want(&|i| a[i] / k) }
             && { let mut m = pa; m.rem_assign_element_wise(c(k)); lp(m) == want(&|i| a[i] % k) }
             && lp(pa.add_element_wise(c(k))) == want(&|i| a[i] + k) && lp(pa.div_element_wise(c(k))) == want(&|i| a[i] / k)
+            && lp(pa.add_element_wise(c(k)).sub_element_wise(c(k))) == want(&|i| a[i]) && lp(pa.mul_element_wise(c(k))) == want(&|i| a[i] * k) && lp(pa.rem_element_wise(c(k))) == want(&|i| a[i] % k)
             && { let mut m = pa; m -= vb; lp(m) == want(&|i| a[i] - b[i]) }
             && { let mut m = pa; m += vb; lp(m) == want(&|i| a[i] + b[i]) },
             || format!("{}<{}> point ops a={:?} b={:?} k={} (p/k={:?})", stringify!($P), tn, &a[..$n], &b[..$n], k, lp(pa / c(k))));
@@ -131,6 +134,7 @@ macro_rules! int_type {
                     let vd = Vector4::new(c(d[0]), c(d[1]), c(d[2]), c(d[3]));
                     ctx.ew.rec(ls(va.mul_element_wise(vb)) == w(&|i| a[i] * b[i]) && ls(va.div_element_wise(vd)) == w(&|i| a[i] / d[i])
                         && ls(va.add_element_wise(c(k))) == w(&|i| a[i] + k) && ls(va.div_element_wise(c(k))) == w(&|i| a[i] / k)
+                        && ls(va.add_element_wise(c(k)).sub_element_wise(c(k))) == w(&|i| a[i]) && ls(va.mul_element_wise(c(k))) == w(&|i| a[i] * k)
                         && { let mut m = va; m.add_assign_element_wise(c(k)); ls(m) == w(&|i| a[i] + k) }
                         && { let mut m = va; m.mul_assign_element_wise(c(k)); ls(m) == w(&|i| a[i] * k) }
                         && { let mut m = va; m.div_assign_element_wise(c(k)); ls(m) == w(&|i| a[i] / k) }
